@@ -162,6 +162,11 @@ func (ec *evalCtx) specCall(call *ast.CallExpr) Value {
 			return Ite(Le(a, b), a, b)
 		}
 		return Ite(Ge(a, b), a, b)
+	case "json":
+		// json(v): the bytes json.Marshal(v) produces when it succeeds
+		need(1)
+		d, _ := jsonMarshalModel(ec, arg(0))
+		return d
 	case "noErrorIn":
 		// noErrorIn(xs): no element of the []any xs is a non-nil error
 		need(1)
